@@ -12,3 +12,191 @@ def replay(r, harness):
     if not fn:
         print("no replay for kind", r.get("kind")); return 2
     return fn(r, harness)
+
+sys.path.insert(0, os.path.dirname(os.path.abspath(__file__)))
+from tlcutil import run_tlc, parse_tagged, SPEC, WORK, VERIF
+
+def _vectors(harness, kind, vec_path, res_path):
+    p = subprocess.run([harness, "vectors", kind, vec_path, res_path], stdout=subprocess.PIPE, stderr=subprocess.STDOUT, text=True)
+    if p.returncode != 0: return None, [], p.stdout[-2000:]
+    div, summary = [], None
+    for l in open(res_path, encoding="utf-8"):
+        r = json.loads(l)
+        if r.get("summary"): summary = r
+        else: div.append(r)
+    return summary, div, ""
+
+def _viol(prop, cls, d):
+    got = d.get("got", {})
+    what = "panic" if "panic" in got else "hang" if "hang" in got else "differs"
+    return {"kind": "vector", "class": "%s/%s" % (cls, what), "owners": [prop], "tags": ["vector:%s:%s" % (cls, what)],
+            "cmd": {"verb": "VECTOR"}, "detail": d}
+
+# ---- C14: glob matching and mask normalisation against the reference definitions ----
+def run_glob(prop, tier, seed, harness, workdir, T):
+    out = {"tool_errors": [], "violations": [], "coverage": {}}
+    rc, o, dt = run_tlc("GlobVec.tla", "GlobVec_%s.cfg" % tier, workers=1, timeout=3000, heap="12g")
+    if "Model checking completed. No error has been found." not in o:
+        out["tool_errors"].append("GlobVec: " + o[-2000:]); return out
+    texts = parse_tagged(o, "TEXTS"); g = parse_tagged(o, "GLOB"); n = parse_tagged(o, "NORM")
+    if not texts or not g or not n:
+        out["tool_errors"].append("GlobVec exported nothing"); return out
+    gv = os.path.join(workdir, "glob.vec.ndjson"); nv = os.path.join(workdir, "norm.vec.ndjson")
+    with open(gv, "w", encoding="utf-8") as f:
+        f.write(json.dumps(texts[0], ensure_ascii=False) + "\n")
+        for x in g: f.write(json.dumps(x, ensure_ascii=False) + "\n")
+    with open(nv, "w", encoding="utf-8") as f:
+        for x in n: f.write(json.dumps(x, ensure_ascii=False) + "\n")
+    sg, dg, e1 = _vectors(harness, "glob", gv, os.path.join(workdir, "glob.res.ndjson"))
+    sn, dn, e2 = _vectors(harness, "norm", nv, os.path.join(workdir, "norm.res.ndjson"))
+    if sg is None or sn is None:
+        out["tool_errors"].append("vectors run failed: " + e1 + e2); return out
+    for d in dg: out["violations"].append(_viol(prop, "glob", d))
+    for d in dn: out["violations"].append(_viol(prop, "norm", d))
+    wild = sum(1 for x in g if ("*" in x["m"] or "?" in x["m"])) * len(texts[0]["texts"])
+    out["coverage"] = {"special_traces": sg["vectors"] + sn["vectors"], "evaluations": sg["vectors"] + sn["vectors"],
+                       "distinct_nontrivial": wild + sn["vectors"],
+                       "glob_pairs": sg["vectors"], "glob_masks": len(g), "glob_texts": len(texts[0]["texts"]), "norm_masks": sn["vectors"],
+                       "vector_rule": "every mask over {a,b,*,?,é} and every text over {a,b,é} up to the tier's length bounds (exhaustive within the bound), "
+                                      "every mask over {a,!,@,*} for normalisation; non-trivial = the mask contains a wildcard",
+                       "samples": [{"glob_vector": g[len(g) // 2]}, {"norm_vector": n[len(n) // 3]}]}
+    return out
+
+def replay_vector(r, harness):
+    d = r["mismatch"]["detail"]
+    cls = r["mismatch"]["class"].split("/")[0]
+    tmp = os.path.join(WORK, "replay.vec.ndjson"); res = os.path.join(WORK, "replay.res.ndjson")
+    os.makedirs(WORK, exist_ok=True)
+    with open(tmp, "w", encoding="utf-8") as f:
+        if cls == "glob":
+            f.write(json.dumps({"texts": [d["req"]["t"]]}, ensure_ascii=False) + "\n")
+            f.write(json.dumps({"m": d["req"]["m"], "ts": [d["req"]["t"]] if d["expected"] else []}, ensure_ascii=False) + "\n")
+        elif cls == "norm":
+            f.write(json.dumps({"m": d["req"]["m"], "n": d["expected"]}, ensure_ascii=False) + "\n")
+        else:
+            f.write(json.dumps({"line": d["req"]["line"], "exp": d["expected"]}, ensure_ascii=False) + "\n")
+    s, div, e = _vectors(harness, cls if cls in ("glob", "norm") else "parse", tmp, res)
+    for x in div: print("REPLAY-MISMATCH", json.dumps(x, ensure_ascii=False))
+    print("vector replayed:", "diverges" if div else "agrees")
+    return 1 if div else 0
+
+# ---- C13: the line grammar, verb/arity table, framing ----
+VERB_FILL = {"USER": ["u", "0", "*", "r"], "JOIN": ["#c"], "PART": ["#c"], "TOPIC": ["#c"], "INVITE": ["n", "#c"], "KICK": ["#c", "n"],
+             "MODE": ["#c"], "STATS": ["u"], "CONNECT": ["a.b"], "SQUIT": ["a.b", "x"], "CAP": ["LS"], "PRIVMSG": ["n", "t"], "NOTICE": ["n", "t"]}
+def run_parser(prop, tier, seed, harness, workdir, T):
+    out = {"tool_errors": [], "violations": [], "coverage": {}}
+    rc, o, dt = run_tlc("Parser.tla", "Parser_%s.cfg" % tier, workers=1, timeout=3000, heap="12g")
+    if "Model checking completed. No error has been found." not in o:
+        out["tool_errors"].append("Parser: " + o[-2000:]); return out
+    v = parse_tagged(o, "PARSE"); ar = parse_tagged(o, "ARITY")
+    if not v or not ar:
+        out["tool_errors"].append("Parser exported nothing"); return out
+    # verb x letter case x arity 0..min+1 from the specification's table
+    for a in ar:
+        verb, mn = a["verb"], a["min"]
+        fill = VERB_FILL.get(verb, ["p1", "p2", "p3", "p4", "p5"])
+        while len(fill) < mn + 1: fill.append("x%d" % len(fill))
+        for cased in (verb, verb.lower(), verb.capitalize(), verb[0].lower() + verb[1:]):
+            for n in range(0, mn + 2):
+                line = " ".join([cased] + fill[:n])
+                v.append({"line": line, "exp": {"msg": "ok", "command": cased, "known": True, "enough": n >= mn}})
+    for junk in ("FOO", "foo bar", "JOINN #c", "PRIVMS n :t", "123", "1234 x"):
+        v.append({"line": junk, "exp": {"known": False} if not junk[0].isdigit() or len(junk.split()[0]) == 3 else {"exec": False}})
+    pv = os.path.join(workdir, "parse.vec.ndjson")
+    with open(pv, "w", encoding="utf-8") as f:
+        for x in v: f.write(json.dumps(x, ensure_ascii=False) + "\n")
+    s, d, e = _vectors(harness, "parse", pv, os.path.join(workdir, "parse.res.ndjson"))
+    if s is None:
+        out["tool_errors"].append("vectors run failed: " + e); return out
+    for x in d: out["violations"].append(_viol(prop, "parse", x))
+    nontriv = sum(1 for x in v if x["exp"].get("msg") == "ok")
+    cov = {"special_traces": s["vectors"], "evaluations": s["vectors"], "distinct_nontrivial": nontriv, "parse_vectors": s["vectors"],
+           "vector_rule": "every line over {a,Z,1,SP,':',',','#','!','@'} up to the tier's length (exhaustive within the bound) with its reading by the "
+                          "reference tokeniser; every verb x 4 letter-case variants x arity 0..min+1; non-trivial = the line is a grammatical message",
+           "samples": [{"parse_vector": v[len(v) // 2]}]}
+    fr = run_framing(prop, tier, seed, harness, workdir)
+    out["tool_errors"] += fr["tool_errors"]; out["violations"] += fr["violations"]
+    cov["special_traces"] += fr["n"]; cov["evaluations"] += fr["n"]; cov["framing_runs"] = fr["n"]; cov["samples"] += fr["samples"]
+    out["coverage"] = cov
+    return out
+
+def _expected_lines(stream, limit=2000):
+    """the Framer specification's semantics on concrete bytes: lines (CR stripped), fatal over-long line, tail dropped"""
+    lines, buf, dead = [], b"", False
+    for b in stream:
+        if dead: break
+        if b == 10:
+            if buf.endswith(b"\r"): buf = buf[:-1]
+            lines.append(buf); buf = b""
+        elif len(buf) + 1 > limit:
+            dead = True; buf = b""
+        else:
+            buf += bytes([b])
+    return lines, dead
+
+def run_framing(prop, tier, seed, harness, workdir):
+    import random
+    res = {"tool_errors": [], "violations": [], "n": 0, "samples": []}
+    rc, o, dt = run_tlc("Framer.tla", "Framer.cfg", workers=1, timeout=900)
+    if "Model checking completed. No error has been found." not in o:
+        res["tool_errors"].append("Framer: " + o[-1500:]); return res
+    rnd = random.Random(seed)
+    tests = []
+    base = b"PING t1\r\nPING t2\nPRIVMSG obs :a: b\r\n\r\nPING  t3 \r\nprivmsg obs hello\r\n"
+    def add(tid, chunks, close_after=False):
+        tests.append({"id": tid, "chunks": [c.hex() for c in chunks], "close_after": close_after, "stream": b"".join(chunks).hex()})
+    add("whole", [base])
+    step = 1 if tier == "thorough" else 3
+    for i in range(1, len(base), step): add("cut1-%d" % i, [base[:i], base[i:]])
+    for k in range(60 if tier == "thorough" else 12):
+        i, j = sorted(rnd.sample(range(1, len(base)), 2)); add("cut2-%d-%d" % (i, j), [base[:i], base[i:j], base[j:]])
+    add("bytewise", [base[i:i + 1] for i in range(len(base))])
+    add("tail", [b"PING t1\r\nPRIVMSG obs :cut off"], close_after=True)
+    for n in (1990, 2010, 2500, 6000):
+        add("long-%d" % n, [b"PING a\r\n", b"PRIVMSG obs :" + b"x" * (n - 13) + b"\r\n", b"PRIVMSG obs :after\r\n"])
+    add("long-split", [b"PING a\r\nPRIVMSG obs :" + b"y" * 1500, b"y" * 1500 + b"\r\nPING b\r\n"])
+    add("nonutf8", [b"PING a\r\n", b"PRIVMSG obs :\xff\xfe\r\n", b"PING b\r\n"])
+    inp = os.path.join(workdir, "frames.in.ndjson"); outp = os.path.join(workdir, "frames.out.ndjson")
+    with open(inp, "w") as f:
+        for t in tests: f.write(json.dumps(t) + "\n")
+    p = subprocess.run([harness, "frames", inp, outp, "--port-base", "27000"], stdout=subprocess.PIPE, stderr=subprocess.STDOUT, text=True)
+    if p.returncode != 0:
+        res["tool_errors"].append("frames run failed: " + p.stdout[-1500:]); return res
+    got = {}
+    for l in open(outp, encoding="utf-8"):
+        r = json.loads(l); got[r["id"]] = r
+    for t in tests:
+        r = got.get(t["id"])
+        if r is None: res["tool_errors"].append("no result for " + t["id"]); continue
+        res["n"] += 1
+        stream = bytes.fromhex(t["stream"])
+        nonutf = t["id"] == "nonutf8"
+        lines, dead = _expected_lines(stream)
+        if nonutf: lines, dead = lines[:1], True
+        exp_pongs, exp_obs = [], []
+        for ln in lines:
+            w = ln.decode("utf-8", "replace").split()
+            if not w: continue
+            if w[0].upper() == "PING" and len(w) > 1: exp_pongs.append(w[1].lstrip(":"))
+            if w[0].upper() == "PRIVMSG" and len(w) > 2:
+                txt = ln.decode("utf-8", "replace")
+                text = txt.split(" :", 1)[1] if " :" in txt else w[2]
+                exp_obs.append(text)
+        pongs = [m["a"][1] for m in r["tester"] if m["c"] == "PONG"]
+        obs = [m["a"][1] for m in r["observer"] if m["c"] == "PRIVMSG"]
+        got417 = any(m["c"] == "417" for m in r["tester"])
+        eof = any(m["c"] == "EOF" for m in r["tester"])
+        bad = []
+        boundary = t["id"] == "long-1990"      # clearly within the limit: must be executed
+        if pongs != exp_pongs: bad.append("pongs %r expected %r" % (pongs, exp_pongs))
+        if obs != exp_obs: bad.append("observer got %r expected %r" % ([x[:20] for x in obs], [x[:20] for x in exp_obs]))
+        if dead and not nonutf and not got417: bad.append("over-long line not answered with 417")
+        if (not dead) and got417: bad.append("417 for a stream within the limit")
+        if not r["raw_crlf_ok"]: bad.append("a line was not CRLF terminated")
+        if (not dead) and (not t["close_after"]) and eof: bad.append("connection closed")
+        if r["panics"] or r["issue"]: bad.append("panic/watchdog %r %r" % (r["panics"], r["issue"]))
+        if bad:
+            res["violations"].append({"kind": "vector", "class": "framing/" + t["id"].split("-")[0], "owners": [prop],
+                                      "tags": ["framing"], "cmd": {"verb": "FRAMES"}, "detail": {"test": {k: t[k] for k in ("id", "chunks", "close_after")}, "why": bad}})
+    res["samples"].append({"framing_test": {k: tests[5][k] for k in ("id", "chunks")}})
+    return res
